@@ -383,6 +383,157 @@ class Program(object):
         for fn in self.functions.values():
             if fn.parent:
                 self._lambda_children.setdefault(fn.parent, []).append(fn)
+        self.alpha_renamed = 0
+        if not os.environ.get("VERIF_NO_ALPHA"):
+            self._alpha_normalise()
+
+    # ---- alpha-normalisation of local names
+    def _alpha_normalise(self):
+        """Local variable and parameter names carry no meaning, but rules are much more readable when they may say `isAvailable` or
+        `request`.  sa/localnames.json records, for every function of the reference tree, its parameters by position and its locals by
+        declaration order with their types.  A function of the analysed tree whose locals line up with the recorded ones (aligned on the
+        sequence of types) gets the recorded names back: renaming a local or a parameter cannot change any verdict."""
+        path = os.path.join(os.path.dirname(os.path.abspath(__file__)), "localnames.json")
+        if not os.path.exists(path):
+            return
+        try:
+            with open(path) as f:
+                table = json.load(f)
+        except Exception:
+            return
+        import difflib
+        maps = {}
+
+        def local_decls(fn):
+            out = []
+            for n in fn.nodes:
+                if n.get("k") == "decl":
+                    for v in n.get("vars", []):
+                        if v.get("n") and v.get("did") is not None:
+                            out.append((v["did"], v["n"], fn.db_types[v["ct"]] if "ct" in v else fn.db_types[v["t"]]))
+                elif n.get("k") == "forrange" and n.get("var") and n.get("vardid") is not None:
+                    out.append((n["vardid"], n["var"], fn.db_types[n["vart"]] if "vart" in n else ""))
+            return out
+
+        order = sorted(self.functions.values(), key=lambda f: f.key.count("::<lambda#"))
+        for fn in order:
+            ent = table.get(fn.key.split("@")[0])
+            m = dict(maps.get(fn.parent, {})) if fn.parent else {}
+            if ent:
+                ps = ent.get("p", [])
+                if len(ps) == len(fn.params):
+                    for prm, nm in zip(fn.params, ps):
+                        if prm.get("n") and nm and prm["n"] != nm and prm.get("did") is not None:
+                            m[prm["did"]] = nm
+                cur = local_decls(fn)
+                ref = ent.get("l", [])
+                sm = difflib.SequenceMatcher(a=[c[2] for c in cur], b=[r_[1] for r_ in ref], autojunk=False)
+                for tag, i1, i2, j1, j2 in sm.get_opcodes():
+                    if tag == "equal":
+                        for k_ in range(i2 - i1):
+                            did, nm, _t = cur[i1 + k_]
+                            want = ref[j1 + k_][0]
+                            if nm != want:
+                                m[did] = want
+                # never create a clash: a target name still used by a declaration that is not itself renamed
+                # (only declarations the reference does not have can clash: shadowing that the reference itself has is reproduced as it is)
+                matched_dids = set()
+                for tag, i1, i2, j1, j2 in sm.get_opcodes():
+                    if tag == "equal":
+                        matched_dids |= set(cur[i][0] for i in range(i1, i2))
+                keep = set(nm for did, nm, _t in cur if did not in matched_dids)
+                for did in [d for d, w in m.items() if w in keep and d in set(c[0] for c in cur) | set(p_.get("did") for p_ in fn.params)]:
+                    del m[did]
+            maps[fn.key] = m
+            if ent:
+                self._note_new_aliases(fn, cur, ref, sm)
+            if not m:
+                continue
+            for prm in fn.params:
+                if prm.get("did") in m:
+                    prm["n"] = m[prm["did"]]
+                    self.alpha_renamed += 1
+            for n in fn.nodes:
+                k = n.get("k")
+                if k == "ref" and n.get("did") in m:
+                    n["n"] = m[n["did"]]
+                elif k == "decl":
+                    for v in n.get("vars", []):
+                        if v.get("did") in m:
+                            v["n"] = m[v["did"]]
+                            self.alpha_renamed += 1
+                elif k == "forrange" and n.get("vardid") in m:
+                    n["var"] = m[n["vardid"]]
+                    self.alpha_renamed += 1
+
+    def _note_new_aliases(self, fn, cur, ref, sm):
+        """A local that the reference tree does not have and that merely names a path expression (`RuleInfo* const requested =
+        request.inputRuleInfo;`, `auto& info = it.second;`) is rendered as that expression, so that introducing such a local does not change
+        what the rules read.  Only when the name is never written and nothing the expression starts from can be written between the
+        declaration and a use of the name."""
+        from . import cfg as C
+        matched = set()
+        for tag, i1, i2, j1, j2 in sm.get_opcodes():
+            if tag == "equal":
+                matched |= set(range(i1, i2))
+        new = [cur[i] for i in range(len(cur)) if i not in matched]
+        if not new:
+            return
+        decl_of = {}
+        for n in fn.nodes:
+            if n.get("k") == "decl":
+                for v in n.get("vars", []):
+                    decl_of[v.get("did")] = (n, v)
+        aliases = {}
+        for did, nm, _t in new:
+            if did not in decl_of or "init" not in decl_of[did][1]:
+                continue
+            dnode, v = decl_of[did]
+            init = fn.nodes[v["init"]]
+            pure = True
+            root = None
+            for x in init.walk():
+                k = x.get("k")
+                if k == "ref":
+                    root = root or x
+                elif k in ("member", "this", "cast", "int"):
+                    continue
+                elif k == "un" and x.get("op") in ("*", "&"):
+                    continue
+                elif k == "construct" and len([a for a in x.get("args", []) if a >= 0]) == 1 and x.get("copymove"):
+                    continue
+                else:
+                    pure = False
+                    break
+            if not pure or root is None:
+                continue
+            uses = [x for x in fn.nodes if x.get("k") == "ref" and x.get("did") == did]
+            written = False
+            for x in fn.nodes:
+                if x.get("k") == "bin" and x.get("op", "").endswith("=") and x["op"] not in ("==", "!=", "<=", ">="):
+                    l = strip_casts(x.child("l"))
+                    if l is not None and l.get("k") == "ref" and l.get("did") == did:
+                        written = True
+                if x.get("k") == "un" and x.get("op") in ("++", "--", "&") and strip_casts(x.child("e")) is not None and strip_casts(x.child("e")).get("did") == did:
+                    written = True
+            if written:
+                continue
+            dpos = C.pos_of(fn, dnode)
+            upos = set(p for p in (C.pos_of(fn, u) for u in uses) if p is not None)
+            ok = dpos is not None
+            if ok:
+                for x in fn.nodes:
+                    if x.get("k") == "bin" and x.get("op", "").endswith("=") and x["op"] not in ("==", "!=", "<=", ">="):
+                        l = x.child("l")
+                        if l is not None and any(y.get("k") == "ref" and y.get("did") == root.get("did") for y in l.walk()):
+                            wp = C.pos_of(fn, x)
+                            if wp is not None and C.path_exists(fn, wp, lambda p, e: p in upos, avoid=lambda p, e: p == dpos) is not None:
+                                ok = False
+                                break
+            if ok:
+                aliases[did] = v["init"]
+        if aliases:
+            fn.new_aliases = aliases
 
     # ---- lookup by role helpers
     def fn(self, suffix, unique=True, cls=None):
@@ -483,6 +634,9 @@ def expr_str(n, depth=0):
         return expr_str(n.fn.nodes[[a for a in n["args"] if a >= 0][0]], depth)
     c = lambda key: expr_str(n.child(key), depth + 1)
     if k == "ref":
+        al = getattr(n.fn, "new_aliases", None)
+        if al and n.get("did") in al and depth < 10:
+            return expr_str(n.fn.nodes[al[n["did"]]], depth + 1)
         return n.get("n", "?")
     if k == "member":
         if n.get("implicit_this"):
